@@ -7,11 +7,14 @@
      levinson_nested   the order-q reflection coefficients are the first q of the order-p ones
      levinson_raises   the recursion fails exactly at a stage whose error power tests "<= 0"
      levinson_no_raise a returned stage never has error power "<= 0"
+     hermtoep_solves   HERMTOEP(T0,T,Z) returns X with sum_j r(i-j) X_j = Z_i for every row i (r = T0::T)
+     hermtoep_raises   HERMTOEP fails only at a stage whose error power tests "<= 0"
    NOT PROVED (stated in DESIGN.md 4/C10): positive definiteness => P_m > 0 and |k_m| < 1 in R
    (needs the LDL^H reading of the recursion), root location (stability), the general TOEPLITZ
    and CHOLESKY solvers (library back ends: correspondence + residual search only). *)
+(* (the general TOEPLITZ recursion is modelled and tied by correspondence; its theorem is not proved) *)
 Require Import Spectrum.Theory.Ops Spectrum.Theory.Sum Spectrum.Theory.Vec Spectrum.Model.Levinson
-               Spectrum.Proofs.LevinsonTheory Spectrum.Instances.QcC.
+               Spectrum.Proofs.LevinsonTheory Spectrum.Proofs.HermtoepTheory Spectrum.Instances.QcC.
 From Coq Require Import QArith Qcanon.
 
 Section C10.
@@ -43,6 +46,19 @@ Theorem levinson_no_raise (r : list F) (p : nat) A P ks A' P' ks' :
   levinson r p false = Some (A, P, ks) -> levinson r (S p) false = Some (A', P', ks') ->
   le0 P' = false.
 Proof. exact (levinson_no_raise_thm r p A P ks A' P' ks'). Qed.
+
+Theorem hermtoep_solves (T0 : F) (T Z X : list F) :
+  isreal T0 -> T0 <> 0 -> hermtoep T0 T Z = Some X ->
+  length X = S (length T) /\
+  forall i, (i <= length T)%nat ->
+    sumf (S (length T)) (fun j => nthF X j * rz (T0 :: T) (Z.of_nat i - Z.of_nat j)) = nthF Z i.
+Proof. exact (hermtoep_solves_thm T0 T Z X). Qed.
+
+Theorem hermtoep_raises (T0 : F) (T Z : list F) :
+  hermtoep T0 T Z = None ->
+  exists m A P X, (m < length T)%nat /\ herm_iter T Z T0 m = Some (A, P, X) /\
+    let k := (- lev_delta T A m) / P in le0 (P * (1 - k * conj k)) = true.
+Proof. exact (hermtoep_raises_thm T0 T Z). Qed.
 End C10.
 
 (* non-vacuity: a concrete complex positive-definite sequence meets the hypotheses and the
@@ -55,7 +71,13 @@ Example levinson_raises_example :
   @levinson _ qcc_ops [cz (1,0) (0,0); cz (2,0) (0,0)]%Z 1 false = None.
 Proof. vm_compute. reflexivity. Qed.
 
+Example hermtoep_example :
+  exists X, @hermtoep _ qcc_ops (cz (2,0)%Z (0,0)%Z) [cz (1,0) (1,-1); cz (1,-2) (-1,-1)]%Z [cz (1,0) (0,0); cz (0,0) (1,0); cz (3,0) (-1,0)]%Z = Some X.
+Proof. vm_compute. eexists. reflexivity. Qed.
+
 Print Assumptions levinson_solves.
 Print Assumptions levinson_nested.
 Print Assumptions levinson_raises.
 Print Assumptions levinson_no_raise.
+Print Assumptions hermtoep_solves.
+Print Assumptions hermtoep_raises.
